@@ -112,6 +112,11 @@ def gen_case(r, i):
             "via_cli_accounts": (sel is not None and r.random() < 0.25), "prices_configured": r.random() < 0.15, "src": "gen"}
     if case["prices_configured"]:
         tags.append("price-conversion-configured")
+    if len(ts) >= 2 and r.random() < 0.25:
+        # a transaction filter: the export speaks about the selected transactions only
+        keep = sorted(r.sample(range(len(ts)), r.randint(1, len(ts) - 1)))
+        case["filter"] = json.dumps({"txnFilter": {"TxnFilterTxnDescription": {"regex": "t(%s)" % "|".join(map(str, keep))}}})
+        tags.append("txn-filter")
     return case
 
 
@@ -151,6 +156,8 @@ def request1(c):
                    {"op": "balance", "kind": "equity", "prices": False, "ras": pats or []}]}
     if ov:
         req["overlaps"] = ov
+    if c.get("filter"):
+        req["filter"] = c["filter"]
     return req
 
 
@@ -162,8 +169,10 @@ def request2(text):
 def replay_obj(c):
     return {"journal": c["text"], "equity_account": c["eqa"],
             "equity_selectors": None if c["sel"] is None else sel_patterns(c["sel"]),
+            "selector_spec": c["sel"],      # [exact?, text]: exact account name / string prefix of the account name
             "selectors_given_as": "--accounts" if c["via_cli_accounts"] else "export.equity.accounts",
             "audit": c["audit"], "price_conversion_configured": c["prices_configured"], "tackler_toml": c.get("toml"),
+            "txn_filter": c.get("filter"),
             "export_text": c.get("export"), "export_parsed_back": c.get("reparse"), "source": c["src"],
             "replay_hint": "tackler --config <tackler_toml> --input.file <journal> --exports equity ; then feed the "
                            "*.equity.txn file back as a journal (audit off) with --reports balance; ./check C10 --replay <this file>"}
@@ -174,6 +183,16 @@ def main(run):
     harness_build()
     n = 150 if run.tier == "quick" else 2000
     cases = load_corpus() + [gen_case(run.rng, i) for i in range(n)]
+    evaluate(run, cases)
+    run.cov["rule"] = ("corpus + seeded journals (1-7 txns, 0-3 commodities incl. none, account trees depth<=4, priced postings in 30%, "
+                       "equal time stamps in 30%, audit+uuid in 30%, transaction filter in 25%); selectors: none / exact names / string prefixes / everything / "
+                       "nothing, 25% via --accounts; equity account outside or inside the journal; 15% with price conversion configured; "
+                       "source and export each run through the harness (export parsed back with audit off); non-trivial = non-empty export; "
+                       "distinct = distinct export texts")
+    return run.finish(info)
+
+
+def evaluate(run, cases):
     res1 = harness_run([request1(c) for c in cases])
     stages, tagc = {}, {}
     second, idx2 = [], []
@@ -266,17 +285,30 @@ def main(run):
                           "(specification oracles hold on this input)",
                           dict(replay_obj(c), correspondence="C10_corr.c10_case"), found_input=False)
     run.cov["distinct_nontrivial"] = len(distinct)
-    run.cov["rule"] = ("corpus + seeded journals (1-7 txns, 0-3 commodities incl. none, account trees depth<=4, priced postings in 30%, "
-                       "equal time stamps in 30%, audit+uuid in 30%); selectors: none / exact names / string prefixes / everything / "
-                       "nothing, 25% via --accounts; equity account outside or inside the journal; 15% with price conversion configured; "
-                       "source and export each run through the harness (export parsed back with audit off); non-trivial = non-empty export; "
-                       "distinct = distinct export texts")
     run.notes.update({"stages": stages, "tags": tagc, "in_exact_domain": n_dom, "exports_with_warning": n_warn,
                       "exports_with_balancing_posting": n_bal, "empty_exports": n_empty, "corpus_bits": corpus_bits})
-    return run.finish(info)
 
 
 def replay(run, path):
+    """re-run the stored case against the current /repo; exit 1 if it still violates"""
     j = json.load(open(path))
-    print(json.dumps(j, indent=1, ensure_ascii=False)[:8000])
-    return 0
+    rp = j.get("replay", j)
+    print(json.dumps({k: rp.get(k) for k in ("journal", "equity_account", "equity_selectors", "selectors_given_as", "audit",
+                                              "price_conversion_configured", "export_text")}, indent=1, ensure_ascii=False)[:6000])
+    if "journal" not in rp:
+        return 0
+    spec = rp.get("selector_spec")
+    c = {"text": rp["journal"], "eqa": rp["equity_account"], "sel": None if spec is None else [(bool(e), t) for (e, t) in spec],
+         "audit": bool(rp.get("audit")), "tags": ["replay"], "via_cli_accounts": rp.get("selectors_given_as") == "--accounts",
+         "prices_configured": bool(rp.get("price_conversion_configured")), "filter": rp.get("txn_filter"), "src": "replay"}
+    ok, log = coq_make(["corr/C10_corr.vo"])
+    if not ok:
+        raise Infra("coq build failed:\n" + log[-2000:])
+    harness_build()
+    evaluate(run, [c])
+    print("export now:\n%s" % c.get("export"))
+    for (what, _, found) in run.violations:
+        print("REPRODUCED: %s%s" % (what, "" if found else " (no failing input: correspondence only)"))
+    if not run.violations:
+        print("not reproduced (bits: %s)" % run.notes.get("corpus_bits"))
+    return 1 if run.violations else 0
